@@ -166,6 +166,9 @@ def _proc_cfgs(tier):
             if proc != "excitation" and m >= 2:
                 for bs in (1, m, m + 1):
                     out.append(dict(W="sample", baseline="none", proc=proc, nf=2, ns=2, m=m, bs=bs, lb="none", ub="fin", K="none"))
+        # a scalar baseline the way the estimator stores it (array of shape (1,)), stacked batches
+        for bs in (1, 2):
+            out.append(dict(W="none", baseline="array1", proc=proc, nf=2, ns=2, m=2, bs=bs, lb="none", ub="fin", K="none"))
     return out
 
 
